@@ -15,7 +15,7 @@ PKG=$(grep -l . $SRC/notes.md >/dev/null 2>&1; grep -ho "\(utils\|decoders/[a-z]
 # destination package of the demo: first line `package X` + notes; try the candidates until it compiles
 place_demo() {
   for f in $DEMOS; do
-    pk=$(grep -m1 '^package ' $f | awk '{print $2}')
+    pk=$(grep -m1 '^package ' $f | awk '{print $2}' | sed 's/_test$//')
     for d in utils decoders/netflow decoders/sflow decoders/netflowlegacy decoders/utils producer/proto transport/file transport/kafka format/json; do
       if [ -d $W/$d ] && grep -qs "^package $pk\$" $W/$d/*.go; then cp $f $W/$d/; echo "$d"; break; fi
     done
